@@ -225,11 +225,8 @@ def run(ctx):
             continue
         try:
             j = b(t)
-        except Exception as e:
+        except Exception:
             continue
-        leaves = es.leaves_of(j) if hasattr(es, "leaves_of") else None
-        flat = json.dumps(j, sort_keys=True)
-        want_field = toks[0][1].replace("\\", "") if False else toks[0][1]
         sk = c03.skeleton(r["ok"])
         spec, why = c03.spec_parse(toks)
         if spec is not None and sk != spec:
